@@ -94,6 +94,16 @@ impl<E: FieldElement, H: ElementHasher<BaseField = E::BaseField>> VerifierChanne
         let (fri_layer_queries, fri_layer_proofs) = fri_proof
             .parse_layers::<H, E>(lde_domain_size, fri_options.folding_factor())
             .map_err(|err| VerifierError::ProofDeserializationError(err.to_string()))?;
+        // the FRI verifier consumes exactly one layer proof per FRI layer: a proof carrying any other
+        // number of layers contains data which is never checked against anything
+        let num_fri_layers = fri_options.num_fri_layers(lde_domain_size);
+        if fri_layer_proofs.len() != num_fri_layers {
+            return Err(VerifierError::ProofDeserializationError(format!(
+                "expected {} FRI layers, but the proof contains {}",
+                num_fri_layers,
+                fri_layer_proofs.len()
+            )));
+        }
 
         // --- parse out-of-domain evaluation frame -----------------------------------------------
         let (ood_trace_frame, ood_constraint_evaluations) = ood_frame
